@@ -14,6 +14,34 @@ CFG = "rules:\n  idiomatic:\n    directory-package-mismatch:\n      level: ignor
 CFG2 = CFG + "  style:\n    opa-fmt:\n      level: ignore\n"
 
 
+# only the aggregate rules that collect nothing for most files stay active (unresolved-import, prefer-package-imports
+# and impossible-not emit an entry for EVERY file, which would hide an update of a file to "no aggregate data")
+CFG3 = ("rules:\n  idiomatic:\n    directory-package-mismatch:\n      level: ignore\n"
+        "  imports:\n    unresolved-import:\n      level: ignore\n    prefer-package-imports:\n      level: ignore\n"
+        "  bugs:\n    impossible-not:\n      level: ignore\n")
+
+
+def directed_aggregate_histories(first_id):
+    """single-file replacements that change what a file contributes to the aggregate data, through the real server's
+    cache (C09: updating one file's aggregates and re-running the report equals a fresh run)"""
+    out = []
+    for cfg, tag in ((CFG, "all-rules"), (CFG3, "sparse-collectors")):
+        # a cycle p0 <-> p1; the change removes p0's import: p0 then aggregates nothing under CFG3
+        files = {"p0/f0.rego": content(0, [1], 0), "p1/f1.rego": content(1, [0], 0), "p2/f2.rego": content(2, [], 0),
+                 ".regal/config.yaml": cfg}
+        out.append({"files": files, "events": [{"kind": "change", "file": "p0/f0.rego", "text": content(0, [], 0), "pauseMs": 300}],
+                    "_tag": tag + ":cycle-broken"})
+        # and back: the cycle is re-introduced after having been removed
+        out.append({"files": files, "events": [{"kind": "change", "file": "p0/f0.rego", "text": content(0, [], 0), "pauseMs": 600},
+                                               {"kind": "change", "file": "p0/f0.rego", "text": content(0, [1], 0), "pauseMs": 300}],
+                    "_tag": tag + ":cycle-broken-and-restored"})
+        # the importer is deleted instead
+        out.append({"files": files, "events": [{"kind": "delete", "file": "p0/f0.rego", "pauseMs": 300}], "_tag": tag + ":cycle-member-deleted"})
+    for k, c in enumerate(out):
+        c.update({"id": first_id + k, "op": "lsp.history"})
+    return out
+
+
 def content(i, imports, variant=0):
     lines = ["package p%d" % i, "", "import rego.v1", ""]
     for j in imports:
@@ -30,7 +58,7 @@ def gen_history(rng, k):
     for i in range(n):
         imps = [j for j in range(n + 1) if j != i and rng.random() < 0.4]
         files["p%d/f%d.rego" % (i, i)] = content(i, imps, rng.choice([0, 0, 1]))
-    files[".regal/config.yaml"] = CFG
+    files[".regal/config.yaml"] = CFG3 if rng.random() < 0.3 else CFG
     names = [f for f in files if f.endswith(".rego")]
     events = []
     burst = rng.random() < 0.35
@@ -64,7 +92,7 @@ def gen_history(rng, k):
                 live.append(to)
                 events.append({"kind": "rename", "file": f, "to": to, "pauseMs": pause})
         else:
-            events.append({"kind": "config", "text": rng.choice([CFG, CFG2]), "pauseMs": max(pause, 300)})
+            events.append({"kind": "config", "text": rng.choice([CFG, CFG2, CFG3]), "pauseMs": max(pause, 300)})
     return {"id": k, "op": "lsp.history", "files": files, "events": events}
 
 
@@ -121,6 +149,7 @@ def run(ctx):
                  ".regal/config.yaml": CFG}
         ev = {"kind": "delete", "file": "p1/f1.rego"} if kind == "delete" else {"kind": "rename", "file": "p1/f1.rego", "to": "p1/g1.rego"}
         cases.append({"id": len(cases), "op": "lsp.history", "files": files, "events": [ev]})
+    cases += directed_aggregate_histories(len(cases))
     impl = ctx.impl(cases, timeout=3000, procs=6)
     for c in cases:
         r = impl[c["id"]]
